@@ -155,6 +155,9 @@ func IdentityForType(in []*Identity, typ cbc.Code) *Identity {
 // IdentityForKey helps return the identity with the first matching key.
 func IdentityForKey(in []*Identity, key ...cbc.Key) *Identity {
 	for _, v := range in {
+		if v == nil {
+			continue
+		}
 		if v.Key.In(key...) {
 			return v
 		}
@@ -169,6 +172,9 @@ func AddIdentity(in []*Identity, i *Identity) []*Identity {
 		return []*Identity{i}
 	}
 	for _, v := range in {
+		if v == nil {
+			continue
+		}
 		if v.Type == i.Type && v.Key == i.Key {
 			*v = *i // copy in place
 			return in
